@@ -207,3 +207,21 @@ def stencil_origin(prog, qname, idx_field="index"):
     base + j1 - c(_it), return the list of (site line, offset expr in (k, n)) where k is the
     interpolation point number and n the order: node_k = k - c(n)."""
     raise NotImplementedError
+
+
+def append_data_args(x):
+    """the arguments of a call of HDF5File::_appendData by what they are, not by where they stand: (dataset info, data pointer, count or None).
+    The helper is private; its parameter order is not part of any interface."""
+    ds = data = n = None
+    for a in x.get("args", []):
+        t = A.strip(a)
+        ty = (t.get("ctype") or "") + " " + (a.get("ctype") or "")
+        if a.get("k") == "CXXDefaultArgExpr":
+            continue
+        if "DatasetInfo" in ty:
+            ds = a
+        elif "*" in ty or t.get("k") == "UnaryOperator" and t.get("op") == "&":
+            data = a
+        else:
+            n = a
+    return ds, data, n
